@@ -10,7 +10,7 @@ CONSTANTS
   BugFallbackBeforeLoop = FALSE
   BugStaleGameOver = FALSE
   BugGameOverLatch = FALSE
-  BugGivesUpOnGarbage = FALSE
+  BugGivesUpOnGarbage = TRUE
 INVARIANT TypeOk
 INVARIANT OneAnswerPerGo
 INVARIANT AnswerFitsPosition
